@@ -128,6 +128,6 @@ def grammar_cases(job):
                             sample_trees=job.get("sample_trees", 0))
             c.update(base)
             c["tbl"] = tbl
-            c["name"] = "%s [%s%s%s] @ %r" % (gen.gname(g), tables, "" if consume else ",prefix", ",table=precomputed" if job.get("pretable") else "", w)
+            c["name"] = "%s [%s%s%s] @ %r" % (gen.gname(g), tables, "" if consume else ",prefix", (",table=precomputed" if job.get("pretable") else "") + "".join(",%s=%s" % kv for kv in sorted(job.get("opts", {}).items())), w)
             out.append(c)
     return out
